@@ -907,6 +907,27 @@ pub fn patch(bytes: &mut [u8], f: &Field, value: u64) {
     bytes[f.off..f.off + n].copy_from_slice(&le[..n]);
 }
 
+/// Writes non-zero values into the two bytes after the cel type of some cel chunks (reserved for the library's
+/// format revision, the per-cel z-index in newer ones). Only for checks whose oracle does not depend on the order
+/// in which a frame's cels are drawn.
+pub fn junk_zindex(enc: &mut Encoded, rng: &mut Rng) {
+    let fields: Vec<Field> = enc.fields.iter().filter(|f| f.name == "cel_zindex").cloned().collect();
+    for f in fields {
+        if rng.chance8(5) {
+            let v: i16 = match rng.below(8) {
+                0 => 32767,
+                1 => -32768,
+                2 => 32766,
+                3 => -2,
+                4 => 2,
+                5 => -1,
+                _ => 1,
+            };
+            patch(&mut enc.bytes, &f, v as u16 as u64);
+        }
+    }
+}
+
 pub fn read_field(bytes: &[u8], f: &Field) -> u64 {
     let mut le = [0u8; 8];
     let n = f.len.min(8);
